@@ -12,9 +12,12 @@ Line-protocol driver for the C08 model (`lake build c08drv`). All numbers are he
               s=<addr>,<key>,<value>  storage write
               c=<classhash>           declared class
   revert                                        -> ok | err:empty
-  l1 <n> | l1 none                              -> ok
+  l1 <n> | l1 none | l1 zero                    -> ok   (zero: the zero struct core.L1Head{})
   q <v8|v9|v10> <legacy|new> <method> <arg>*    -> ok ... | err:<code>
-        block id (wire form): t:<tag string> | n:<num> | h:<hash> | hn:<hash>:<num> | o | x
+        block id (wire form): t:<tag string> | n:<num> | h:<hash> | hn:<hash>:<num> | o | x | null | nn
+        (`nn` = {"block_number": null}); methods `null:<position> …` are requests whose required
+        non-id argument is JSON null
+  cfg <0|1> <0|1>                               -> ok   (nullCrashes, nullNumberIsZero: code variant)
         transaction index: hex, optionally negative (`-1`)
         stateUpdate takes an optional last argument f=<addr>,… (v10 contract_addresses; `f=` is
         the empty list)
@@ -57,6 +60,8 @@ def parseVer : String → Option Ver
 def parseRawId (s : String) : Option RawId :=
   if s == "o" then some (.obj none none)
   else if s == "x" then some .other
+  else if s == "null" then some .null
+  else if s == "nn" then some .objNullNumber
   else match splitOn1 s ':' with
     | ["t", tag] => some (.tag tag)
     | ["n", x] => (hexToNat? x).map (fun n => .obj none (some n))
@@ -118,6 +123,7 @@ def render : Ans → String
   | .status f r => "ok " ++ finS f ++ " " ++ boolS r
   | .update bh nr orr d => "ok " ++ natToHex bh ++ " " ++ natToHex nr ++ " " ++ natToHex orr ++ " " ++ diffS d
   | .valueAt v n => "ok " ++ natToHex v ++ " @" ++ natToHex n
+  | .crash => "crash"
   | .pendingBlock p => "ok pending " ++ natToHex p
   | .pendingUpdate orr d => "ok pending-update " ++ natToHex orr ++ " " ++ diffS d
 
@@ -180,7 +186,29 @@ def parseRequest (method : String) (args : List String) : Option Request :=
     pure (.classAt id a)
   | _, _ => none
 
-def step (nd : Node) (line : String) : Node × String :=
+def parseNullRequest (method : String) (args : List String) : Option NullRequest :=
+  match method, args with
+  | "null:txHash", [] => some .txHash
+  | "null:index", [id] => (parseRawId id).map .index
+  | "null:nonce", [id] => (parseRawId id).map .nonceAddr
+  | "null:classHashAt", [id] => (parseRawId id).map .classHashAtAddr
+  | "null:classAt", [id] => (parseRawId id).map .classAtAddr
+  | "null:class", [id] => (parseRawId id).map .classHash
+  | "null:storageAddr", [id, k] => do
+    let id ← parseRawId id
+    let k ← hexToNat? k
+    pure (.storageAddr k id)
+  | "null:storageKey", [id, a] => do
+    let id ← parseRawId id
+    let a ← hexToNat? a
+    pure (.storageKey a id)
+  | _, _ => none
+
+structure St where
+  nd : Node := {}
+  cfg : Cfg := {}
+
+def stepNode (cfg : Cfg) (nd : Node) (line : String) : Node × String :=
   match words line with
   | ["reset"] => ({}, "ok")
   | "store" :: num :: hash :: parent :: root :: oldRoot :: items =>
@@ -195,6 +223,7 @@ def step (nd : Node) (line : String) : Node × String :=
     | some nd' => (nd', "ok")
     | none => (nd, "err:empty")
   | ["l1", "none"] => (setL1 nd none, "ok")
+  | ["l1", "zero"] => (setL1Zero nd, "ok")
   | ["l1", n] =>
     match hexToNat? n with
     | some n => (setL1 nd (some n), "ok")
@@ -205,8 +234,22 @@ def step (nd : Node) (line : String) : Node × String :=
     | _, none => (nd, "bad-op")
     | some v, some be =>
       match parseRequest method args with
-      | some r => (nd, render (serve be v nd r))
-      | none => (nd, "bad-op")
+      | some r => (nd, render (serve cfg be v nd r))
+      | none =>
+        match parseNullRequest method args with
+        | some r => (nd, render (serveNull cfg be v nd r))
+        | none => (nd, "bad-op")
   | _ => (nd, "bad-op")
 
-def main : IO Unit := loop step ({} : Node)
+/-- `cfg <nullCrashes 0|1> <nullNumberIsZero 0|1>`: which variant of the code is being looked at. -/
+def step (st : St) (line : String) : St × String :=
+  match words line with
+  | ["cfg", a, b] =>
+    if (a == "0" || a == "1") && (b == "0" || b == "1") then
+      ({ st with cfg := { nullCrashes := a == "1", nullNumberIsZero := b == "1" } }, "ok")
+    else (st, "bad-op")
+  | _ =>
+    let (nd', out) := stepNode st.cfg st.nd line
+    ({ st with nd := nd' }, out)
+
+def main : IO Unit := loop step ({} : St)
